@@ -208,7 +208,9 @@ def clip_predicate_rule(ctx, R):
     if b is None:
         return 0
     seen = set()
-    for c in b.find_calls():
+    from lib import all_closures
+    # (the predicate may be called from the clipper itself or from a closure of it: fold / for_each over the edges)
+    for c in [c_ for hb in [b] + all_closures(ctx.F, b) for c_ in hb.find_calls()]:
         for cb in local_callee_bodies(ctx.F, c):
             if cb.npath in seen or cb.locals[0] != 'bool':
                 continue
@@ -224,10 +226,11 @@ def clip_predicate_rule(ctx, R):
                       'reports an intersection for boxes that do not overlap)' % (cb.npath, e))
     # the same test written in place (or spliced in from a helper of a new private type): every comparison of the
     # clipper between a cross-product-like quantity (f64 arithmetic over coordinates) and a constant
-    eb = ExprBuilder(b)
     seen_cmp = set()
-    for i in sorted(b.live_blocks()):
-        for si, s_ in enumerate(b.blocks[i]['st']):
+    for hb in [b] + all_closures(ctx.F, b):
+      eb = ExprBuilder(hb)
+      for i in sorted(hb.live_blocks()):
+        for si, s_ in enumerate(hb.blocks[i]['st']):
             if s_['k'] != 'assign' or s_['rv']['k'] != 'bin' or s_['rv']['op'] not in ('Le', 'Lt', 'Ge', 'Gt'):
                 continue
             e = eb._rvalue(s_['rv'], (), 0, (i, si))
